@@ -330,6 +330,97 @@ func c08Group(p c08GroupParams) Scenario {
 	}})
 }
 
+// c08GroupRefused: a shared-tag group in which the middle request is one the framework
+// refuses itself (it never reaches the implementation): it still waits its turn, and
+// the request behind it still waits for the one in front.
+func c08GroupRefused(kind string, dotu bool, maxpend, P int) Scenario {
+	name := fmt.Sprintf("sharedtag with a request the framework refuses (%s) maxpend=%d dotu=%v", kind, maxpend, dotu)
+	var s *sess
+	var phase1 int
+	const gTag = 300
+	body := func() {
+		s = newSess(SrvOpt{Msize: 256, Dotu: dotu, Maxpend: maxpend})
+		a := s.prepare("read", 30, gTag)
+		c := s.prepare("read", 31, gTag)
+		var b *wire.Msg
+		switch kind {
+		case "clunk of NOFID":
+			b = &wire.Msg{Type: wire.Tclunk, Tag: gTag, Fid: wire.NOFID}
+		case "stat of NOFID":
+			b = &wire.Msg{Type: wire.Tstat, Tag: gTag, Fid: wire.NOFID}
+		case "walk from NOFID":
+			b = twalk(gTag, wire.NOFID, 77, "d")
+		case "read of an unknown fid":
+			b = &wire.Msg{Type: wire.Tread, Tag: gTag, Fid: 999, Count: 4}
+		case "read of too much":
+			b = &wire.Msg{Type: wire.Tread, Tag: gTag, Fid: 31, Count: 1 << 20}
+		case "walk to a fid in use":
+			b = twalk(gTag, 0, 31, "d")
+		case "attach to a fid in use":
+			b = tattach(gTag, 0, wire.NOFID, "glenda", 7, dotu)
+		}
+		gate := vs.NewSem(0)
+		s.fs.Script[reqKey{0, gTag, 0}] = &Action{Gate: gate}
+		s.setupN = len(s.c.Collect())
+		vs.Window(true)
+		s.c.Send(dotu, a, b, c)
+		vs.Idle()
+		phase1 = len(s.c.Collect()[s.setupN:])
+		gate.Release()
+		vs.Idle()
+		vs.Window(false)
+		s.c.Collect()
+	}
+	check := stdCheck("C08", func(x *vs.Exec) *Viol {
+		frames := s.c.Frames[s.setupN:]
+		detail := map[string]any{"wire": strings.Split(framesString(frames), "\n"), "fslog": strings.Split(s.fs.logString(), "\n"), "parked": x.Parked}
+		if phase1 != 0 {
+			return &Viol{Sig: "C08/tag-group-overtook-blocked-head", Msg: "a later request of a shared-tag group (" + kind + ", or the one behind it) was answered while the first one was still blocked\n" + framesString(frames), Detail: detail}
+		}
+		var calls []Entry
+		var firstResp int64 = -1
+		for _, e := range s.fs.Log {
+			if e.Conn != 0 || e.Tag != gTag {
+				continue
+			}
+			if e.Kind == "call" {
+				calls = append(calls, e)
+			}
+			if e.Kind == "resp" && firstResp < 0 {
+				firstResp = e.Seq
+			}
+		}
+		if len(calls) != 2 || calls[0].Fid != 30 || calls[1].Fid != 31 {
+			return &Viol{Sig: "C08/tag-group-execution-order", Msg: fmt.Sprintf("the implementation saw %d requests under the shared tag, want the read on fid 30 then the read on fid 31\n%s", len(calls), s.fs.logString()), Detail: detail}
+		}
+		if calls[1].Seq < firstResp {
+			return &Viol{Sig: "C08/tag-group-overlap", Msg: "the request behind the refused one started before the first of the group had finished\n" + s.fs.logString(), Detail: detail}
+		}
+		if len(frames) != 3 {
+			return &Viol{Sig: "C08/tag-group-missing-reply", Msg: fmt.Sprintf("%d replies for 3 same-tag requests\n%s", len(frames), framesString(frames)), Detail: detail}
+		}
+		for i, f := range frames {
+			if f.Msg == nil {
+				return &Viol{Sig: "C08/malformed-frame", Msg: f.Err, Detail: detail}
+			}
+			want := uint8(wire.Rread)
+			if i == 1 {
+				want = wire.Rerror
+			}
+			if f.Msg.Type != want || f.Msg.Tag != gTag {
+				return &Viol{Sig: "C08/tag-group-reply-order", Msg: fmt.Sprintf("reply %d under the shared tag is %s; the group was a read, a %s, a read\n%s", i, f.Msg, kind, framesString(frames)), Detail: detail}
+			}
+		}
+		if got, want := renderReply(frames[2].Msg), fmt.Sprintf("Rread %x", readData(gTag, 31, 31, 16)); got != want {
+			return &Viol{Sig: "C08/tag-group-reply-order", Msg: "the third reply is " + got + ", want " + want, Detail: detail}
+		}
+		return nil
+	}, nil)
+	return vsScenario(&VsSpec{Name: name, Body: body, Check: check, P: P})
+}
+
+var c08RefusedKinds = []string{"clunk of NOFID", "stat of NOFID", "walk from NOFID", "read of an unknown fid", "read of too much", "walk to a fid in use", "attach to a fid in use"}
+
 // c08AcrossVersion: a request is held under tag t when a Tversion arrives in mid-session
 // (its reply is then suppressed); the new session uses tag t again, twice. The three
 // requests still run one at a time in arrival order, and the two of the new session
@@ -525,6 +616,9 @@ func c08SlowScenarios(P int) []Scenario {
 
 func c08Scenarios(tier string) []Scenario {
 	var out []Scenario
+	for i, k := range c08RefusedKinds {
+		out = append(out, c08GroupRefused(k, i%2 == 0, i%3, 1))
+	}
 	kinds := []string{"read", "stat", "write", "walk", "clunk", "open"}
 	if tier == "quick" {
 		i := 0
